@@ -155,7 +155,7 @@ func (g *Gen) genLocalDecl() Stmt {
 	case 0:
 		v := &Var{Name: g.name("v"), Kind: VLocal, Ty: t, Space: "function", HasType: r.Bool()}
 		var init Expr
-		noInitOK := g.on("var-noinit-in-loop") || !g.fx.inLoop
+		noInitOK := (g.on("var-noinit-in-loop") || !g.fx.inLoop) && g.on("decl.var-noinit")
 		if r.Chance(1, 4) && noInitOK {
 			g.feat("decl.var-noinit")
 			if g.fx.inLoop {
@@ -179,6 +179,16 @@ func (g *Gen) genLocalDecl() Stmt {
 			init = g.genExprT(t, g.depthCfg()-1)
 		} else {
 			init = g.genExpr(t, g.depthCfg()-1)
+		}
+		if !t.IsScalar() && isRefExpr(init) {
+			if !g.on("let.composite-load") {
+				init = &Cons{Ty: t, Args: nil}
+				if t.Kind == KVec || t.Kind == KMat {
+					init = g.consLits(t)
+				}
+			} else {
+				g.feat("let.composite-load")
+			}
 		}
 		g.declare(v)
 		g.feat("decl.let." + kindName(t))
